@@ -250,8 +250,19 @@ func likePattern(t *rapid.T, c *Col, label string) string {
 	}
 	r := []rune(base)
 	var sb strings.Builder
-	mode := rapid.IntRange(0, 6).Draw(t, label+".mode")
+	mode := rapid.IntRange(0, 8).Draw(t, label+".mode")
 	switch mode {
+	case 7: // prefix%suffix taken from one value; the two parts may overlap in it (then only longer values match)
+		i := rapid.IntRange(0, len(r)).Draw(t, label+".i")
+		j := rapid.IntRange(0, len(r)).Draw(t, label+".j")
+		sb.WriteString(string(r[:j]) + "%" + string(r[i:]))
+	case 8: // several wildcards between fragments of the value
+		for i, ch := range r {
+			sb.WriteRune(ch)
+			if rapid.IntRange(0, 2).Draw(t, fmt.Sprintf("%s.w%d", label, i)) == 0 {
+				sb.WriteString(rapid.SampledFrom([]string{"%", "%", "_", "%%", "%_"}).Draw(t, fmt.Sprintf("%s.wc%d", label, i)))
+			}
+		}
 	case 0: // exact (maybe case-flipped)
 		sb.WriteString(base)
 	case 1: // prefix%
